@@ -543,8 +543,8 @@ def apply(F, S, extra=None):
                 continue
             if cls == "serde" and f.derived:
                 continue
-            if cls == "allocates" and fam == "nopanic":
-                continue
+            if cls == "allocates" and fam == "nopanic" and (f.derived or any(f.path == c_ or f.path.startswith(c_ + "::") for c_ in ctor_paths) or (f.path in F.helpers() and F.only_from_constructors(f.path))):
+                continue  # (constructors allocate their window: C11-K2; derived Clone copies it.  Anywhere else an allocation can fail / abort)
             if cls == "may_panic" and fam in ("slice-index",) and (f.path, t["span"]["line"], t["span"]["col"]) in index_calls:
                 continue  # discharged above as a site (this very call was recorded by the evaluation)
             if cls == "may_panic" and fam == "unwrap" and f.path in defaults_ok:
